@@ -289,7 +289,7 @@ pub fn property() -> Property {
             name: "history",
             rule: "0-14 (thorough 30) ops from set_tab_width/with_tab_width (0..=16), set_style/with_style/style().template() re-set over 7 templates (tabs in literals, '{'+TAB, custom keys writing tabs in one and in several writes), set/with message/prefix with 0-5 tabs, finish_with_message/abandon_with_message/reset/tick, optional final drop with ProgressFinish::WithMessage; after every op: no TAB in any terminal write, painted lines == model with tabs -> current width, message()/prefix() == expanded; non-trivial = a width change after a text with a tab was set",
             strategy: case_strategy,
-            cases: |t| t.pick(6_000, 300_000),
+            cases: |t| t.pick(6_000, 1_200_000),
             run: run_tabs,
             signature: no_signature,
             essential: &["width_change_after_tab_text", "retemplate_of_cloned_style", "width_zero", "drop_with_message", "finish_message_with_tab"],
